@@ -24,6 +24,8 @@ Rules applied to extracted text (recorded in evidence as coverage.extraction.dro
   5 wrapped in verus!{}
   6 (opt-in, checked) tail-position `continue` in a `for` body -> `{}`
   7 (opt-in) `for P in E` -> `for P in it: E` (names the iterator so an invariant can mention it)
+  8 (per item, `| noattrs attrs=..`) the attribute list of an item is replaced (derive lists naming traits of opaque types)
+  9 (opt-in, `assoc X`) `Self::X` in a fn taken from a trait impl -> the impl's `type X = T` right-hand side
 """
 import hashlib
 import json
@@ -122,7 +124,7 @@ def _tail_continue_edits(toks, loops):
     return edits
 
 
-def build(template_path, repo, out_path):
+def build(template_path, repo, out_path, drop_tags=()):
     name = os.path.splitext(os.path.basename(template_path))[0]
     unit = Unit(name)
     lines = open(template_path).read().split("\n")
@@ -180,6 +182,7 @@ def build(template_path, repo, out_path):
             parts = [p.strip() for p in spec.split(" :: ")]
             rel, path = parts[0], parts[1:]
             ret = None
+            assoc = None
             tailc = False
             contract = []
             loopspec = {}
@@ -196,6 +199,8 @@ def build(template_path, repo, out_path):
                         ret = d[4:].strip()
                     elif d == "tailcontinue":
                         tailc = True
+                    elif d.startswith("assoc "):
+                        assoc = d[6:].strip()
                     elif d.startswith("name "):
                         oname = d[5:].strip()
                     elif d.startswith("loop "):
@@ -214,7 +219,8 @@ def build(template_path, repo, out_path):
                     else:
                         raise ExtractError(f"template {name}: unknown directive `{s2}`")
                 else:
-                    cur.append(l2)
+                    if not any(tg in l2 for tg in drop_tags):
+                        cur.append(l2)
                 i += 1
             i += 1  # skip //@ end
             src = src_of(rel)
@@ -234,6 +240,28 @@ def build(template_path, repo, out_path):
             p_open, p_close, arrow, ret_end, _ = rslex.fn_parts(ltoks, kwl, bol)
             edits = _common_edits(text, unit)
             ctext = "\n".join(contract)
+            if assoc:
+                # rule 9: the fn comes from a trait impl; `Self::<assoc>` is replaced by the right-hand side of the
+                # impl's own `type <assoc> = T;` (looked up in the enclosing impl block of the real source)
+                _, ist, ikw, ibo, ien = rslex.locate(src, path[:-1])
+                rhs = None
+                k = ibo + 1
+                while k < ien:
+                    if toks[k].t == "type" and toks[k + 1].t == assoc and toks[k + 2].t == "=":
+                        e2 = k + 3
+                        while toks[e2].t != ";":
+                            e2 += 1
+                        rhs = src[toks[k + 3].s:toks[e2 - 1].e]
+                        break
+                    if toks[k].t == "{":
+                        k = rslex.match_close(toks, k)
+                    k += 1
+                if rhs is None:
+                    raise ExtractError(f"rule 9: enclosing impl has no `type {assoc} = ..;`")
+                for k2 in range(len(ltoks) - 2):
+                    if ltoks[k2].t == "Self" and ltoks[k2 + 1].t == "::" and ltoks[k2 + 2].t == assoc:
+                        edits.append((ltoks[k2].s, ltoks[k2 + 2].e, rhs))
+                        unit.drops["assoc_types_substituted"] = unit.drops.get("assoc_types_substituted", 0) + 1
             if ret:
                 if arrow is None:
                     raise ExtractError(f"`{path[-1]}`: ret named but fn has no return type")
